@@ -667,6 +667,87 @@ def replay_no_document(a):
         shutil.rmtree(d, ignore_errors=True)
 
 
+def loader_sequence_end(a):
+    """C11 / C16: how the libyaml loader closes a sequence. On EVERY returning path - also for an empty sequence -: the innermost open
+    container index is popped, the values above it are moved (drain / split_off) onto the open List in order, and the short-form-tag test
+    (`func_support_index.last()` compared with the list's position) is made; when it holds, the tag entry and the list are popped and the
+    list is stored under the tag's long name in the enclosing map"""
+    LD = struct_fields(a.src, "rules/libyaml/loader.rs", "Loader")
+    ex = a.exec(LOADER + "handle_sequence_end",
+                {"pop": mirexec.m_option, "last": mirexec.m_option, "last_mut": mirexec.m_option, "map_or": lambda ex, av: ex.havoc("bool"),
+                 "unwrap": lambda ex, av: (av[0][3].get("Some") if av and av[0][0] == "enum" and av[0][3].get("Some") else ex.opq()),
+                 "drain": lambda ex, av: ex.opq(), "collect": mirexec.m_identity, "split_off": lambda ex, av: ex.opq(), "is_empty": lambda ex, av: ex.havoc("bool"),
+                 "len": lambda ex, av: ("int", ex.len_of(av[0]))},
+                log=("extend", "append", "insert", "drain", "split_off", "pop", "last", "map_or", "push"), unroll=1, max_paths=2000, deepen=False)
+    a.fns.append("rules::libyaml::loader::Loader::handle_sequence_end")
+    me = ex.arg_env["_1"]
+    fld = lambda n: ex.proj.get((me[1], f".{LD.index(n)}"))
+    bad, nret = [], 0
+    for p in ex.paths:
+        if p.outcome != "return":
+            continue                      # the unwrap()s on an inconsistent loader state: not reachable from libyaml's balanced events (assumed)
+        nret += 1
+        ev = lambda n: [e for e in p.events if e[0] == "call" and e[1] == n]
+        pops, moves, exts, lasts, mors, ins = ev("pop"), ev("drain") + ev("split_off"), ev("extend") + ev("append"), ev("last"), ev("map_or"), ev("insert")
+        stack, lci, fsi = fld("stack"), fld("last_container_index"), fld("func_support_index")
+        ok = (stack is not None and lci is not None and fsi is not None
+              and len(pops) >= 1 and pops[0][2][0] == lci
+              and len(moves) == 1 and moves[0][2][0] == stack
+              and len(exts) == 1 and exts[0][2][1] == moves[0][3]
+              and len(lasts) == 1 and lasts[0][2][0] == fsi and len(mors) == 1)
+        if not ok:
+            bad.append(pc_term(p.pc))
+            continue
+        tagged = mors[0][3][1]
+        if len(pops) == 3 and len(ins) == 1:
+            wired = pops[1][2][0] == fsi and pops[2][2][0] == stack and ins[0][2][2] == pops[2][3][3].get("Some")
+            bad.append(f"(and {pc_term(p.pc)} (not (and {tagged} {'true' if wired else 'false'})))")
+        elif len(pops) == 3 and not ins:
+            bad.append(f"(and {pc_term(p.pc)} (not {tagged}))")            # enclosing value is a BadValue: nothing stored
+        elif len(pops) == 1 and not ins:
+            bad.append(f"(and {pc_term(p.pc)} {tagged})")
+        else:
+            bad.append(pc_term(p.pc))
+    c = a.discharge("loader/handle_sequence_end/every-sequence-is-closed-the-same-way", ex, bad,
+                    f"Loader::handle_sequence_end ({nret} returning paths): on every one of them the container index is popped, the values above it are moved onto "
+                    "the open list by one extend, and the short-form-tag test is made; exactly when it holds the tag entry and the list are popped and the list is "
+                    "inserted into the enclosing map - an empty sequence takes the same route")
+    if c:
+        c["replay"] = replay_tagged_empty_sequences(a)
+        c["reproduced"] = c["replay"].get("reproduced", False)
+        a.candidates.append(c)
+
+
+def replay_tagged_empty_sequences(a):
+    """short-form tags on EMPTY (and one-element) sequences, in a list / in a map with further keys / as the last key: validate's verdict on
+    the short form equals its verdict on the long form, and there is no crash"""
+    import os, shutil, subprocess, tempfile
+    exe = a.cli()
+    if not exe:
+        return {"reproduced": False, "note": "native build failed"}
+    d = tempfile.mkdtemp(prefix="cfnverif_replay_")
+    out = []
+    try:
+        pairs = [("in a list", "L: [!Join [], tail]\n", 'L: [{"Fn::Join": []}, tail]\n', "rule r {\n  L[0] is_struct\n  L[1] == \"tail\"\n  L[2] !exists\n}\n"),
+                 ("in a map, more keys after it", "Always: !And []\nOther: x\n", 'Always: {"Fn::And": []}\nOther: x\n', "rule r {\n  Always is_struct\n  Other == \"x\"\n}\n"),
+                 ("last key of a map", "M:\n  Other: x\n  Always: !Or []\n", 'M:\n  Other: x\n  Always: {"Fn::Or": []}\n', "rule r {\n  M.Always is_struct\n  M.Other == \"x\"\n}\n"),
+                 ("block style", "V: !Join\n  []\nZ: 1\n", 'V: {"Fn::Join": []}\nZ: 1\n', "rule r {\n  V is_struct\n  Z == 1\n}\n"),
+                 ("one element", "V: !Join [a]\nZ: 1\n", 'V: {"Fn::Join": [a]}\nZ: 1\n', "rule r {\n  V is_struct\n  Z == 1\n}\n")]
+        for label, short, long_, rules in pairs:
+            open(os.path.join(d, "r.guard"), "w").write(rules)
+            rcs = []
+            for text in (short, long_):
+                open(os.path.join(d, "d.yaml"), "w").write(text)
+                pr = subprocess.run([exe, "validate", "-r", os.path.join(d, "r.guard"), "-d", os.path.join(d, "d.yaml"), "--show-summary", "none"],
+                                    capture_output=True, text=True, timeout=60)
+                rcs.append(pr.returncode)
+            if rcs[0] != rcs[1] or rcs[1] != 0:
+                out.append({"case": label, "short_form": short, "long_form": long_, "exit_short": rcs[0], "exit_long": rcs[1]})
+        return {"reproduced": bool(out), "mismatches": out[:4]}
+    finally:
+        shutil.rmtree(d, ignore_errors=True)
+
+
 def scalar_bytes_wiring(a):
     """C11 (validate's libyaml loader vs the serde loaders of `test` / the library): the bytes of a scalar event are EXACTLY the buffer
     libyaml reports - `from_raw_parts(event.data.scalar.value, event.data.scalar.length)`, pointer and length of the same union member -
@@ -735,4 +816,4 @@ def replay_embedded_nul(a):
         shutil.rmtree(d, ignore_errors=True)
 
 
-SITES = {"C11": [scalar_typing, type_ref, short_form_tables, serde_number_typing, short_form_loader_agreement, scalar_bytes_wiring], "C16": [serde_number_typing, short_form_loader_agreement], "C10": [scalar_typing], "C08": [loader_stops_at_stream_end]}
+SITES = {"C11": [scalar_typing, type_ref, short_form_tables, serde_number_typing, short_form_loader_agreement, scalar_bytes_wiring, loader_sequence_end], "C16": [serde_number_typing, short_form_loader_agreement, loader_sequence_end], "C10": [scalar_typing], "C08": [loader_stops_at_stream_end]}
